@@ -45,11 +45,11 @@ type browser struct {
 	codes   []*codeRef
 	nlogin  int
 	grantOf map[int]*grant // IdP login step -> grant
-	grantNo map[int]int
+	vouchOf map[int]*vouch
 }
 
 func newBrowser(h *hist, r *c.Rng) *browser {
-	return &browser{h: h, r: r, pjar: map[string]*pck{}, ajar: map[string]*ack{}, grantOf: map[int]*grant{}, grantNo: map[int]int{}}
+	return &browser{h: h, r: r, pjar: map[string]*pck{}, ajar: map[string]*ack{}, grantOf: map[int]*grant{}, vouchOf: map[int]*vouch{}}
 }
 
 func (b *browser) deadlines() []int64 {
@@ -123,7 +123,8 @@ func (b *browser) signIn(sg *sigRef, ck aChoice) aRes {
 	// the real request carries the sealed state
 	real := query("client_id", lit(clientID), "redirect_uri", uri, "response_type", lit("code"), "sig", sig, "state", lit(sg.state), "ts", ts)
 	qy.Real = real.Real
-	res := b.h.auth(aReq{Slug: sg.slug, Leaf: "/sign_in", Method: "GET", Query: qy, Ck: ck, SigFrom: sg.step, Route: 2})
+	res := b.h.auth(aReq{Slug: sg.slug, Leaf: "/sign_in", Method: "GET", Query: qy, Ck: ck, SigFrom: sg.step, Route: 2,
+		URI: sg.uri, SigOK: sg.sig == sign(sg.secret, sg.uri, sg.ts)})
 	b.takeA(res, sg.slug)
 	return res
 }
@@ -148,7 +149,7 @@ func (b *browser) idpLogin(slug, email string, verified bool, expires int64) aRe
 		g := f.byTok["at-"+code]
 		f.mu.Unlock()
 		b.grantOf[res.step] = g
-		b.grantNo[res.step] = b.h.grants
+		b.vouchOf[res.step] = res.cookies[0].v
 		b.h.grants++
 	}
 	return res
@@ -192,7 +193,7 @@ func (b *browser) signOut(host string) {
 	uri, sig, ts := b.h.sigValues(sg)
 	body := query("redirect_uri", uri, "sig", sig, "ts", ts)
 	ar := b.h.auth(aReq{Slug: sg.slug, Leaf: "/sign_out", Method: "POST", Body: body, CType: "application/x-www-form-urlencoded",
-		Ck: b.aChoice(sg.slug), SigFrom: sg.step, Route: 3})
+		Ck: b.aChoice(sg.slug), SigFrom: sg.step, Route: 3, URI: sg.uri, SigOK: true})
 	b.takeA(ar, sg.slug)
 }
 
@@ -201,17 +202,17 @@ func (b *browser) signOut(host string) {
 
 var emails = []string{"alice@example.com", "bob@example.com", "carol@other.org", "dave@example.com"}
 
-func (b *browser) lastGrant() (*grant, int, bool) {
+func (b *browser) lastGrant() (*grant, *vouch, bool) {
 	var steps []int
 	for s := range b.grantOf {
 		steps = append(steps, s)
 	}
 	if len(steps) == 0 {
-		return nil, 0, false
+		return nil, nil, false
 	}
 	sort.Ints(steps)
 	s := steps[len(steps)-1]
-	return b.grantOf[s], b.grantNo[s], b.grantOf[s] != nil
+	return b.grantOf[s], b.vouchOf[s], b.grantOf[s] != nil && b.vouchOf[s] != nil
 }
 
 // a structured, mostly valid history
@@ -235,8 +236,8 @@ func genHistory(w *world, r *c.Rng, kind int) c.Case {
 	case 1: // revocation at the IdP, then the next revalidation ends the session
 		b.login(host, email, expires)
 		b.visit(host, "/app", 0)
-		if g, n, ok := b.lastGrant(); ok {
-			h.idpRevoke(g, n)
+		if g, v, ok := b.lastGrant(); ok {
+			h.idpRevoke(g, v)
 		}
 		b.visit(host, "/app", 0)
 		b.tick(V + 200)
@@ -299,8 +300,8 @@ func genHistory(w *world, r *c.Rng, kind int) c.Case {
 						b.visit(other, "/app", 0)
 					}
 				case 3: // in flight: revoked at the IdP before it is redeemed
-					if g, n, ok := b.lastGrant(); ok {
-						h.idpRevoke(g, n)
+					if g, v, ok := b.lastGrant(); ok {
+						h.idpRevoke(g, v)
 					}
 					b.tick(V + 300)
 					b.proxyCallback(sg, codeChoice{kind: 1, cd: ar.code})
